@@ -387,6 +387,8 @@ class TermAlg:
                 return ("unbound", b.name, fi)
         if isinstance(b, Key) and e.attr == "name":
             return ("str", b.name)
+        if isinstance(b, tuple) and b and b[0] == "str" and e.attr == "join":
+            return ("strjoin", b[1])
         if isinstance(b, tuple) and b and b[0] == "enumv":
             return ("enumv", e.attr)
         if b.__class__.__name__ == "ClassInfo" and b.name == "PolyhedralSyntaxOperator":
@@ -719,6 +721,11 @@ class TermAlg:
             t = f[0]
             if t == "typeof" and isinstance(f[1], Rec):
                 return self.construct(f[1].cls, pos, kw)
+            if t == "strjoin" and len(pos) == 1:
+                parts = self.iterate(pos[0], e)
+                if all(isinstance(x, tuple) and x and x[0] == "str" for x in parts):
+                    return ("str", f[1].join(x[1] for x in parts))
+                return ("str", "?")
             if t == "bound":
                 fi = f[2]
                 if fi.kind == "static":
@@ -809,7 +816,13 @@ class TermAlg:
                     raise AnalysisError("dict(%s) outside the kernel fragment" % norm(e.args[0]))
                 if n == "sorted":
                     items = self.iterate(pos[0], e)
-                    return ListV(sorted(items, key=lambda k: k.name if isinstance(k, Key) else str(k)))
+
+                    def k_sorted(x):
+                        # same convention as list.sort above: by the name of the key (first component of a pair)
+                        y = x.items[0] if isinstance(x, TupV) and x.items else x
+                        return y.name if isinstance(y, Key) else self.text_of(y)
+
+                    return ListV(sorted(items, key=k_sorted))
                 if n == "len":
                     return num(len(self.iterate(pos[0], e)))
                 if n == "type":
